@@ -373,6 +373,14 @@ func genAction(t *rapid.T) Action {
 					a.Draw = append(a.Draw, gen.DrawOp(t, k, func(t *rapid.T, l string) float32 { return gen.Grid(t, l, 8) }, "r"))
 				}
 			}
+			if len(a.Draw) > 0 && rapid.IntRange(0, 3).Draw(t, "closed") == 0 {
+				// a polygon closed by hand: the last segment goes back to the exact start point,
+				// also after a relative close-and-move has opened another sub-path in between
+				if rapid.Bool().Draw(t, "closed.relmove") {
+					a.Draw = append(a.Draw, ops.OpDraw(ops.ClosePathRelMoveTo, 3, 4), ops.OpDraw(ops.RelLineTo, 5, -2))
+				}
+				a.Draw = append(a.Draw, ops.OpDraw(ops.AbsLineTo, float32(a.F[0]), float32(a.F[1])))
+			}
 		}
 		return a
 	}
